@@ -234,6 +234,32 @@ func (e *SpecEnv) eval(x *SExpr) Val {
 		e.fail("cannot slice %s", typ)
 	case "call":
 		return e.call(x)
+	case "forallT", "existsT":
+		gt, err := e.ex.P.resolveTypeExpr(e.pkgPath, x.Args[0].S)
+		if err != nil {
+			e.fail("quantifier type: %v", err)
+		}
+		var bv *Term
+		c := e.child()
+		c.depth = e.depth + 1
+		if gt == nil {
+			bv = Sym("$"+x.S+"!"+strconv.Itoa(e.depth), SInt)
+			c.vars[x.S] = mathInt(bv)
+		} else {
+			bv = Sym("$"+x.S+"!"+strconv.Itoa(e.depth)+"!"+SortOf(gt).Name, SortOf(gt))
+			c.vars[x.S] = TV{bv, gt}
+		}
+		body := c.term(c.eval(x.Args[1]))
+		var facts []*Term
+		collect([]*Term{body}, func(t *Term) {
+			if t.Rng != nil && t.Sort == SInt && dependsOn(t, bv) && isAtom(t) {
+				facts = append(facts, And(Le(IntB(t.Rng.Lo), t), Le(t, IntB(t.Rng.Hi))))
+			}
+		})
+		if x.Op == "forallT" {
+			return boolV(Forall([]*Term{bv}, Implies(And(facts...), body)))
+		}
+		return boolV(Exists([]*Term{bv}, And(append([]*Term{body}, facts...)...)))
 	case "forall", "exists":
 		lo := e.term(e.eval(x.Args[0]))
 		hi := e.term(e.eval(x.Args[1]))
@@ -614,7 +640,9 @@ func (e *SpecEnv) call(x *SExpr) Val {
 				for _, a := range args {
 					ts = append(ts, e.term(e.eval(a)))
 				}
-				return e.ex.abstractApp(key, ts)
+				r := e.ex.abstractApp(key, ts)
+				e.ex.instantiateAbstract(key, c, ts, r)
+				return r
 			}
 		}
 	}
@@ -634,16 +662,24 @@ func (e *SpecEnv) call(x *SExpr) Val {
 				for _, key := range []string{"(" + pp + "." + nt.Obj().Name() + ")." + fn.S, "(*" + pp + "." + nt.Obj().Name() + ")." + fn.S} {
 					if c, ok := st.Funcs[key]; ok && c.Abstract {
 						var ts []*Term
-						if strings.HasPrefix(key, "(*") || !ptr {
-							ts = append(ts, e.term(recv))
+						rv, _ := e.deref(recv)
+						if _, isP := rt.Underlying().(*types.Pointer); !isP {
+							if tv, ok := recv.(TV); ok {
+								rv = tv.T
+							}
+						}
+						_ = ptr
+						if strings.HasPrefix(key, "(*") {
+							ts = append(ts, PtrRef(PtrSort(bt), rv))
 						} else {
-							t, _ := e.deref(recv)
-							ts = append(ts, t)
+							ts = append(ts, rv)
 						}
 						for _, a := range args {
 							ts = append(ts, e.term(e.eval(a)))
 						}
-						return e.ex.abstractApp(key, ts)
+						r := e.ex.abstractApp(key, ts)
+						e.ex.instantiateAbstract(key, c, ts, r)
+						return r
 					}
 				}
 				// spec method: spec name "Type.Method"
@@ -704,16 +740,27 @@ func (ex *Exec) abstractApp(key string, args []*Term) Val {
 		panic(specErr{"abstract function not found: " + key})
 	}
 	res := fn.Signature.Results()
-	if res.Len() != 1 {
-		panic(specErr{"abstract function must have exactly one result: " + key})
-	}
 	var sorts []*Sort
 	for _, a := range args {
 		sorts = append(sorts, a.Sort)
 	}
-	rt := res.At(0).Type()
-	uf := DeclUF("fn:"+shortName(key), SortOf(rt), sorts...)
-	return TV{Typed(App(uf, args...), rt), rt}
+	one := func(i int) Val {
+		rt := res.At(i).Type()
+		name := "fn:" + shortName(key)
+		if res.Len() > 1 {
+			name = fmt.Sprintf("%s.%d", name, i)
+		}
+		uf := DeclUF(name, SortOf(rt), sorts...)
+		return TV{Typed(App(uf, args...), rt), rt}
+	}
+	if res.Len() == 1 {
+		return one(0)
+	}
+	tup := make(TupleV, res.Len())
+	for i := range tup {
+		tup[i] = one(i)
+	}
+	return tup
 }
 
 func (ex *Exec) needRec(sf *SpecFunc, uf *UF) {
@@ -736,4 +783,49 @@ func (ex *Exec) needRec(sf *SpecFunc, uf *UF) {
 		env.vars[p.Name] = TV{s, pt}
 	}
 	rd.Body = env.term(env.eval(sf.Body))
+}
+
+// instantiateAbstract: an abstract function's proved postconditions hold for every argument
+// tuple satisfying its preconditions; when a specification mentions an application, the
+// instance `requires ==> ensures` for exactly those arguments is added to the assumptions.
+func (ex *Exec) instantiateAbstract(key string, con *Contract, args []*Term, res Val) {
+	if len(con.Ensures) == 0 {
+		return
+	}
+	fn := ex.P.Funcs[key]
+	if fn == nil || len(fn.Params) != len(args) {
+		return
+	}
+	if ex.absDone == nil {
+		ex.absDone = map[string]bool{}
+	}
+	var sb strings.Builder
+	sb.WriteString(key)
+	for _, a := range args {
+		fmt.Fprintf(&sb, ",%d", a.id)
+	}
+	if ex.absDone[sb.String()] {
+		return
+	}
+	ex.absDone[sb.String()] = true
+	env := &SpecEnv{ex: ex, pkgPath: con.PkgPath, vars: map[string]Val{}, mem: Mem{}, old: Mem{}}
+	for i, p := range fn.Params {
+		env.vars[p.Name()] = TV{args[i], p.Type()}
+	}
+	var pre []*Term
+	for _, cl := range con.Requires {
+		t, err := env.EvalBool(cl.Expr)
+		if err != nil {
+			return
+		}
+		pre = append(pre, t)
+	}
+	bindResults(env.vars, fn, res)
+	for _, cl := range con.Ensures {
+		t, err := env.EvalBool(cl.Expr)
+		if err != nil {
+			continue
+		}
+		ex.Assumes = append(ex.Assumes, Implies(And(pre...), t))
+	}
 }
